@@ -770,6 +770,16 @@ pub fn evaluate(property: &str, v: &View) -> Vec<Violation> {
         "C12" => crate::oracle2::c12(v),
         "C13" => crate::oracle7::c13(v),
         "C14" => crate::oracle6::c14(v),
+        "C15" => {
+            // keys must also keep working: the data and liveness oracles run on the same history
+            let mut vs = crate::oracle9::c15(v);
+            for mut x in c01(v).into_iter().chain(c02(v)) {
+                x.oracle = format!("c15.keys_stopped_working:{}", x.oracle);
+                x.property = "C15".into();
+                vs.push(x);
+            }
+            vs
+        }
         _ => vec![],
     }
 }
@@ -876,6 +886,7 @@ pub fn nontrivial(property: &str, v: &View, s: &RunStats) -> bool {
             (big_flight && !v.out.obs.rx.is_empty()) || replied
         }
         "C09" | "C10" => s.faults_fired > 0 && s.progress && (p("packet_lost") > 0 || p("pto_count_ge3") > 0 || p("congestion_event") > 0),
+        "C15" => p("key_update") >= 4 && s.progress,
         "C13" => {
             // ids were issued beyond the handshake one and something forced a change of ids:
             // a retirement, a rebinding or a lost NEW/RETIRE_CONNECTION_ID frame
